@@ -2,6 +2,6 @@
 EXTENDS Cro, TLC, Json
 McView == <<pe, ke, buffer, h>>
 \* export: one line per transition that is a reaction (prepared state before, action, one admissible outcome)
-PrintEdge == (act'.op \in {"init", "on_wall", "decompose", "intermolecular", "synthesis"}) =>
+PrintEdge == (act'.op \in {"init", "scoped_init", "on_wall", "decompose", "intermolecular", "synthesis"}) =>
                 PrintT(<<"EDGE", ToJson([from |-> [pe |-> pe, ke |-> ke, buffer |-> buffer], act |-> act', res |-> res'])>>)
 =============================================================================
